@@ -3,6 +3,7 @@
 package weshnet
 
 import (
+	ipfslog "berty.tech/go-ipfs-log"
 	"archive/tar"
 	"bytes"
 	"context"
@@ -58,6 +59,7 @@ type c20Source struct {
 	trace    []string
 	contactGroups  int
 	blockedContact bool
+	forkedLog      bool
 }
 
 func c20SortedCIDs(cs []cid.Cid) []string {
@@ -135,6 +137,48 @@ func c20BuildSource(t *testing.T, rt *rapid.T) *c20Source {
 		}
 		res := w.call(name, req)
 		src.trace = append(src.trace, fmt.Sprintf("%s -> err=%v", name, res.errored))
+	}
+	// another member wrote to one of the multi-member groups meanwhile; its branch reaches the exporting node (entries
+	// fetched, heads exchanged) but the exporter has not written on top of it: that log has two heads at export time
+	if nGroups > 0 && rapid.Bool().Draw(rt, "foreign-branch") {
+		gpk := gpks[0]
+		gc, err := svc.GetContextGroupForID(gpk)
+		if err != nil {
+			rt.Fatalf("harness: %v", err)
+		}
+		if r := w.call("AppMessageSend", &protocoltypes.AppMessageSend_Request{GroupPk: gpk, Payload: []byte("own branch")}); r.errored || r.panicked {
+			rt.Fatalf("harness: send failed")
+		}
+		own := gc.messageStore.OpLog().Len()
+		w2 := vNewReplica(t, "W2", nil)
+		defer w2.close()
+		gc2 := w2.open(t, gc.Group())
+		var last ipfslog.Entry
+		for i := 0; i < own+2; i++ {
+			op, err := gc2.MessageStore().AddMessage(vCtx, []byte(fmt.Sprintf("other member %d", i)))
+			if err != nil {
+				rt.Fatalf("harness: %v", err)
+			}
+			last = op.GetEntry()
+		}
+		for _, e := range gc2.MessageStore().OpLog().GetEntries().Slice() {
+			nd, err := vSharedNode(t).API().Dag().Get(vCtx, e.GetHash())
+			if err != nil {
+				rt.Fatalf("harness: %v", err)
+			}
+			if err := svc.ipfsCoreAPI.Dag().Add(vCtx, nd); err != nil {
+				rt.Fatalf("harness: %v", err)
+			}
+		}
+		if err := vSync(gc.messageStore, last); err != nil {
+			rt.Fatalf("harness: %v", err)
+		}
+		if gc.messageStore.OpLog().Heads().Len() < 2 {
+			rt.Fatalf("harness: the exporter's log has %d head(s) after receiving a concurrent branch", gc.messageStore.OpLog().Heads().Len())
+		}
+		_ = gc2.Close()
+		src.forkedLog = true
+		src.trace = append(src.trace, fmt.Sprintf("a concurrent branch of %d messages of another member received (log with two heads)", own+2))
 	}
 	// what became of the contacts afterwards
 	for _, c := range contacts {
@@ -531,7 +575,7 @@ func TestVerif_C20_RoundTrip(t *testing.T) {
 		}
 		acct.Case(len(src.groups) >= 2 && big, fmt.Sprintf("rt|%d|%d|%v", len(src.groups), entries, src.trace), func() any {
 			return map[string]any{"kind": "round-trip", "groups": len(src.groups), "entries": entries, "files": len(src.files), "history": src.trace}
-		}, "round-trip", lbl07(len(src.groups) >= 2, "round-trip/several-groups"), lbl07(src.contactGroups > 0, "round-trip/contact-group"), lbl07(src.blockedContact, "round-trip/blocked-contact"))
+		}, "round-trip", lbl07(len(src.groups) >= 2, "round-trip/several-groups"), lbl07(src.contactGroups > 0, "round-trip/contact-group"), lbl07(src.blockedContact, "round-trip/blocked-contact"), lbl07(src.forkedLog, "round-trip/log-with-two-heads"))
 	})
 }
 
